@@ -1,7 +1,7 @@
 (* Lemmas about the calibration model (Model/Calib.v).  The set semantics of the regenerated
    `py_overlaps` / `py_isEmpty` and of `diff GEN_MAX` come from C11 (Proofs/TimespanProofs.v). *)
 From Coq Require Import ZArith NArith List Bool Lia ZifyBool Permutation.
-From V Require Import Base.Tri Gen.TimespanGen Model.Timespan Proofs.TimespanProofs Model.Calib.
+From V Require Import Base.Tri Gen.TimespanGen Gen.CalibDiffGen Model.Timespan Proofs.TimespanProofs Model.Calib.
 Import ListNotations.
 Open Scope N_scope.
 
@@ -179,6 +179,11 @@ Proof.
 Qed.
 
 (* ---------- decertify ---------- *)
+(* the REGENERATED Timespan.difference (Gen/CalibDiffGen.v) is the C11 hand model: a semantic edit of
+   Timespan.intersection / Timespan.difference breaks this proof *)
+Lemma py_difference_diff a b : py_difference a b = diff GEN_MAX a b.
+Proof. reflexivity. Qed.
+
 (* at every instant, the pieces Timespan.difference leaves of `a` count once exactly where a \ t does *)
 Lemma diff_count {A} (v : A) a t x : wf a -> wf t ->
   flat_map (fun p => if memb x p then [v] else []) (diff GEN_MAX a t) = if memb x a && negb (memb x t) then [v] else [].
@@ -214,7 +219,7 @@ Lemma contrib_pieces c' ty' d' x t r : wf (r_ts r) -> wf t ->
   flat_map (contrib c' ty' d' x) (pieces t r) =
   if key_match c' ty' d' r && memb x (r_ts r) && negb (memb x t) then [r_ds r] else [].
 Proof.
-  intros Hr Ht. unfold pieces. rewrite flat_map_concat_map, map_map, <- flat_map_concat_map.
+  intros Hr Ht. unfold pieces. rewrite py_difference_diff, flat_map_concat_map, map_map, <- flat_map_concat_map.
   unfold contrib, key_match. cbn [r_coll r_ty r_did r_ds r_ts].
   destruct ((r_coll r =? c') && (r_ty r =? ty') && (r_did r =? d')) eqn:Ek; cbn [andb].
   - apply diff_count; assumption.
@@ -263,7 +268,7 @@ Qed.
 
 Lemma pieces_wf t r : wf (r_ts r) -> wf t -> rows_wf (pieces t r).
 Proof.
-  intros Hr Ht. destruct (diff_spec_p (r_ts r) t Hr Ht) as [H _]. unfold rows_wf, pieces.
+  intros Hr Ht. destruct (diff_spec_p (r_ts r) t Hr Ht) as [H _]. unfold rows_wf, pieces. rewrite py_difference_diff.
   rewrite Forall_forall in *. intros q Hq. apply in_map_iff in Hq as (p & <- & Hp). cbn. apply H, Hp.
 Qed.
 
